@@ -201,7 +201,7 @@ func selfcertReplay(args []string) {
 
 		switch c.Ao {
 		case 1:
-			sd["anchorOrigin"] = "origin-1"
+			sd["anchorOrigin"] = "  https://origin-1.example/path/  "
 		case 2:
 			sd["anchorOrigin"] = map[string]interface{}{"o": 2}
 		}
@@ -227,6 +227,16 @@ func selfcertReplay(args []string) {
 			style = c.Mod
 		case "sd_deltahash":
 			msd["deltaHash"] = refModelHash(mk(9, scPatches(env, c.Patch, 1)), alg)
+		case "sd_deltahash_truncated", "sd_deltahash_empty_digest":
+			// the right algorithm code, a digest that is a (possibly empty) prefix of the real one
+			canon, _ := refJCS(generic(delta))
+			dig := refHash(alg, canon)
+			n := 12
+			if c.Mod == "sd_deltahash_empty_digest" {
+				n = 0
+			}
+
+			msd["deltaHash"] = b64(refMultihash(alg, dig[:n]))
 		case "sd_recoverycommitment":
 			msd["recoveryCommitment"] = conc.commitment(9, c.H)
 		case "sd_anchororigin":
@@ -250,6 +260,31 @@ func selfcertReplay(args []string) {
 		case "delta_patch_removed":
 			l := scPatches(env, c.Patch, 1)
 			mdelta = mk(1, l[:len(l)-1])
+		case "delta_null_member_added":
+			// a null member added inside the first patch (a key's purposes, or the patch itself)
+			l := generic(scPatches(env, c.Patch, 1)).([]interface{})
+			first := l[0].(map[string]interface{})
+			target := first
+
+			for _, name := range []string{"publicKeys", "services"} {
+				if arr, ok := first[name].([]interface{}); ok && len(arr) > 0 {
+					target = arr[0].(map[string]interface{})
+				}
+			}
+
+			if doc, ok := first["document"].(map[string]interface{}); ok {
+				if arr, ok := doc["publicKeys"].([]interface{}); ok && len(arr) > 0 {
+					target = arr[0].(map[string]interface{})
+				}
+			}
+
+			if _, isKey := target["publicKeyJwk"]; isKey {
+				target["purposes"] = nil
+			} else {
+				target["note"] = nil
+			}
+
+			mdelta = mk(1, l)
 		default:
 			fatalf("unknown modification %s", c.Mod)
 		}
